@@ -233,6 +233,29 @@ Section Check.
     forallb (fun a => forallb (fun b => negb (rows_compatible a b) || row_eqb a b) t) t.
 
   Definition table_ok (t : list row) : bool := forallb row_ok t && table_unamb t.
+
+  (* [B^0·acc; B^1·acc; …] (n elements) *)
+  Fixpoint pows (B : N) (n : nat) (acc : N) : list N :=
+    match n with
+    | O => []
+    | S n' => acc :: pows B n' (acc * B)%N
+    end.
+
+  (* [row_ws_ok r]: no number with FEWER than [elen r] base-58 digits that starts with [tpre r]
+     is (binary prefix ++ a shorter body): a string of the row's length that ends in whitespace
+     (which the base58 package strips) can therefore not pass the binary-prefix check. *)
+  Definition row_ws_ok (r : row) : bool :=
+    match tpre_value r with
+    | None => false
+    | Some T =>
+        let b := be_to_N (bpre r) in
+        let j := (elen r - length (tpre r))%nat in
+        let i58 := map (fun P => (T * P, (T + 1) * P)%N) (pows 58 j 1) in
+        let i256 := map (fun P => (b * P, (b + 1) * P)%N) (pows 256 (plen r + 4) 1) in
+        forallb (fun x => forallb (fun y => negb ((fst x <? snd y)%N && (fst y <? snd x)%N)) i58) i256
+    end.
+
+  Definition table_ws_ok (t : list row) : bool := forallb row_ws_ok t.
 End Check.
 
 
